@@ -36,7 +36,14 @@ def loop_nonempty(p, func, fornode):
             for m in func.cls.methods.values():
                 for n in ast.walk(m.node):
                     if isinstance(n, ast.Call) and isinstance(n.func, ast.Attribute) and n.func.attr == "_apply_transforms":
-                        if len(n.args) < 2 or "self.q_vectors" not in norm_text(n.args[1]):
+                        arg = n.args[1] if len(n.args) >= 2 else None
+                        # a local bound once to (a re-ordering of) self.q_vectors stands for it
+                        hops = 0
+                        while isinstance(arg, ast.Name) and hops < 3:
+                            defs = [a.value for a in ast.walk(m.node) if isinstance(a, ast.Assign) and any(isinstance(t, ast.Name) and t.id == arg.id for t in a.targets)]
+                            arg = defs[0] if len(defs) == 1 else None
+                            hops += 1
+                        if arg is None or "self.q_vectors" not in norm_text(arg):
                             ok = False
             if ok:
                 return "HouseholderSequence: q_vectors has num_transforms >= 1 rows (constructor guard)"
